@@ -150,7 +150,7 @@ fn layout_shape_ok(src: &Src, ty: &str) -> Result<(), String> {
     if !t.contains(&format!("letmutout_len={};", reserved)) || !t.contains(&format!("len:Some(out_len-{}),", reserved)) {
         return Err("the reserved length is not subtracted again from the announced length".into());
     }
-    if !t.contains("matchlength_add(out_len,incr){Some(new_len)=>{out_len=new_len;},_=>{") || !t.contains("out_len=new_len;") {
+    if !t.contains("matchlength_add(out_len,incr){Some(new_len)=>out_len=new_len,_=>{") || !t.contains("out_len=new_len") {
         return Err("the running length is not accumulated with length_add(out_len, incr)".into());
     }
     Ok(())
